@@ -12,12 +12,16 @@
    (a) in ticket form, for every command that draws a ticket (system events, broadcast / entity-event / entity /
        despawn reactions): over a whole run each is set up exactly once, by the run it causes or by the abort path, none
        lost and none twice (`every_event_carrying_command_is_resolved_exactly_once`).
-   What is NOT a theorem (rests on the correspondence check and the m_runs monitor): (a) for the commands that draw no
-   ticket (plain system commands, resource-mutation reactions), whose resolutions are not distinguishable in the ghost
-   state, and as a count over the event log; termination (e) — see DESIGN §5 C02. *)
+   (a) in counting form, for the commands that draw no ticket (plain system commands, resource-mutation reactions): over
+       a whole run, for every target system, as many were set up (run or abort path) as were applied
+       (`unticketed_commands_are_resolved_exactly_once`, from the balance `unticketed_balance` proved by induction over
+       the interpreter: applied - set up - waiting in the buffer changes by exactly what an instruction holds in hand).
+   What is NOT a theorem (rests on the correspondence check and the m_runs monitor): (a) as a count of start / abort
+   lines of the event log; termination (e) — see DESIGN §5 C02. *)
 From Cobweb Require Import Machine.
 Require Import Coq.Sorting.Permutation.
-From CobwebProofs Require Import RunnerInv TicketInv TopLevel.
+From Coq Require Import ZArith.
+From CobwebProofs Require Import RunnerInv TicketInv TopLevel DefaultSpec.
 
 Theorem runner_invariant : forall (P : program) (fuel : nat) (i : instr) (A B : list ent) (w w' : world),
   exec P fuel i w = Ok w' -> PreR i A B w -> PostR i A B w w'.
@@ -54,8 +58,35 @@ Theorem every_event_carrying_command_is_resolved_exactly_once : forall (P : prog
   Permutation (ptickets (g_prep w')) (ctickets (g_claim w')) /\ NoDup (ctickets (g_claim w')).
 Proof. exact every_parked_command_is_set_up_exactly_once. Qed.
 
+(* (a) for commands without ticket: per target system, applied = set up, over the whole run; what the ghosts record *)
+Theorem unticketed_commands_resolved_exactly_once : forall (P : program) (fuel : nat) (w' : world), run P fuel = Ok w' ->
+  forall s, length (filter (N.eqb s) (g_dprep w')) = length (filter (cmatch s) (g_claim w')).
+Proof. exact unticketed_commands_are_resolved_exactly_once. Qed.
+Theorem unticketed_balance_everywhere : forall (P : program) (s : ent) (fuel : nat) (i : instr) (w w' : world),
+  exec P fuel i w = Ok w' -> F s w' = (F s w - dcount s (held i))%Z.
+Proof. exact unticketed_balance. Qed.
+Theorem an_unticketed_command_is_noted_when_applied : forall c w t su cl w1, prepare_cmd c w = Some (t, su, cl, w1) ->
+  g_dprep w1 = g_dprep w ++ (if is_default (mkBuf t su cl) then [t] else []).
+Proof. exact unticketed_command_noted. Qed.
+Theorem an_itemless_claim_is_the_setup_of_an_unticketed_command : forall su t w w0, run_setup su t w = Some w0 ->
+  exists items, g_claim w0 = g_claim w ++ [(setup_ticket su, t, items)] /\ (items = [] <-> su = SuDefault).
+Proof. exact setup_claims. Qed.
+(* non-vacuity: 101 runs itself (postponed), 102 and a dead 103: three commands for 101/102 resolved, one aborted *)
+Definition ex_prog2 : program :=
+  mkProgram [mkSys 101 Plain false false None; mkSys 102 Plain false false None; mkSys 103 Plain false false None]
+            [((101, 0), [ARun 101; ARun 102; ADespawn 103; ARun 103])]
+            [] [] []
+            [TFlush [ASpawnSys 101; ASpawnSys 102; ASpawnSys 103]; TFlush [ARun 101]].
+Example ex_unticketed : exists w', run ex_prog2 400 = Ok w' /\ g_dprep w' = [101; 101; 102; 103]
+  /\ map (fun c => snd (fst c)) (g_claim w') = [101; 102; 103; 101].
+Proof. eexists. split; [vm_compute; reflexivity|]. vm_compute. split; reflexivity. Qed.
+
 Print Assumptions every_event_carrying_command_is_resolved_exactly_once.
 Print Assumptions runner_invariant.
 Print Assumptions root_frame_leaves_nothing.
 Print Assumptions trees_run_to_completion.
 Print Assumptions postponed_only_for_active.
+Print Assumptions unticketed_commands_resolved_exactly_once.
+Print Assumptions unticketed_balance_everywhere.
+Print Assumptions an_unticketed_command_is_noted_when_applied.
+Print Assumptions an_itemless_claim_is_the_setup_of_an_unticketed_command.
